@@ -66,12 +66,15 @@ ForeignDraw ==
   /\ rng' = Draw(rng) /\ hist' = Append(hist, "FD")
   /\ UNCHANGED <<gD, tStage, tX0, tInput, fBuilt, fRan>>
 
-ForeignConstruct(seeded) ==
+\* a foreign instance: seeded or not, of another dimension or of the SAME dimension as T
+\* (with other options: noise mode, initial-design size)
+ForeignConstruct(seeded, sameD) ==
   /\ Room /\ tStage # "run" /\ ~fBuilt
-  /\ gD' = DimT + 1
+  /\ gD' = IF sameD THEN DimT ELSE DimT + 1
   /\ rng' = IF seeded THEN Draw(<<SeedT + 1, 0>>) ELSE Draw(rng)
   /\ fBuilt' = TRUE
-  /\ hist' = Append(hist, IF seeded THEN "FCs" ELSE "FCu")
+  /\ hist' = Append(hist, IF seeded THEN (IF sameD THEN "FCsD" ELSE "FCs")
+                                      ELSE (IF sameD THEN "FCuD" ELSE "FCu"))
   /\ UNCHANGED <<tStage, tX0, tInput, fRan>>
 
 ForeignRun ==
@@ -79,7 +82,7 @@ ForeignRun ==
   /\ rng' = Draw(Draw(rng)) /\ hist' = Append(hist, "FR") /\ fRan' = TRUE
   /\ UNCHANGED <<gD, tStage, tX0, tInput, fBuilt>>
 
-Next == ConstructT \/ RunT \/ ForeignDraw \/ ForeignConstruct(TRUE) \/ ForeignConstruct(FALSE)
+Next == ConstructT \/ RunT \/ ForeignDraw \/ (\E sd \in BOOLEAN, sm \in BOOLEAN : ForeignConstruct(sd, sm))
         \/ ForeignRun \/ (tStage = "run" /\ UNCHANGED vars)
 Spec == Init /\ [][Next]_vars
 
